@@ -542,6 +542,172 @@ Qed.
 Example C01_example_fractional_order : (0 < / 2 < 1)%R /\ 1 <= 3.
 Proof. split; [lra|auto]. Qed.
 
+(* ================= binary64: the rolling MEAN up to rounding, and exact moment sums on a dyadic grid ============== *)
+(* (Proofs/RoundSum.v, Proofs/RoundMean.v.)  Everything above is about the proof instance option R.  Here the theorems
+   are about the EXECUTION instance — the model at Coq's primitive binary64 `float` (NumF64, NaN = null), the very terms
+   the correspondence run evaluates and compares with Rust.  Notation as in Props/C11.v (R1)-(R8) and Props/C06.v
+   (13)-(17):  f2r / ffin / fvals / rvals64 / fx,  u64 = 2^-53,  eta64 = 2^-1075,  gam u n = (1+u)^n - 1,
+     nops w xs i  additions and subtractions performed on the sum field up to the emit of step i (<= 2i+1),
+     habs w xs i  the magnitude they moved (<= 2 * sum_{k<=i} |x_k|),
+     spow k l = sum of |x^k| over l,  psum k l = sum of x^k,  msk k s = the k-th power-sum field of the state s,
+     grid_check e x / abs_le_check b x : EXECUTABLE tests "x is finite and a multiple of 2^e" / "finite and |x| <= b". *)
+From Coq Require Import ZArith Floats.
+From Tevec Require Import Base.F64 Proofs.Generic Proofs.RoundSum Proofs.RoundMean.
+
+(* (B1) the rolling mean after ANY history: sum / n with the drift of the rolling sum carried through the division.
+   Premises: the emitted value is finite (then the count is >= 1 and nothing overflowed); w < 2^53 so `n as f64` is exact *)
+Theorem C01_ts_vmean_binary64_error :
+  forall (w : nat) (mp : option nat) (body : bool) (xs : list PrimFloat.float) (i : nat) (o : PrimFloat.float),
+    1 <= w -> (Z.of_nat w < 2 ^ 53)%Z ->
+    nth_error (ts_out (ts_vmean_f (NA := NumF64) (DT := IsNoneF64) w mp) body w xs) i = Some o -> ffin o = true ->
+    (Rabs (f2r o - meanR (rvals64 (win w i xs)))
+     <= gam u64 (S (nops w xs i)) * (habs w xs i / INR (length (rvals64 (win w i xs)))) + eta64)%R.
+Proof. exact ts_vmean_binary64_error. Qed.
+
+(* (B2) explicit constants in i alone: at most 2i+1 additions / subtractions and one division *)
+Theorem C01_ts_vmean_binary64_drift :
+  forall (w : nat) (mp : option nat) (body : bool) (xs : list PrimFloat.float) (i : nat) (o : PrimFloat.float),
+    1 <= w -> (Z.of_nat w < 2 ^ 53)%Z ->
+    nth_error (ts_out (ts_vmean_f (NA := NumF64) (DT := IsNoneF64) w mp) body w xs) i = Some o -> ffin o = true ->
+    (Rabs (f2r o - meanR (rvals64 (win w i xs)))
+     <= INR (2 * i + 2) * u64 * (1 + u64) ^ (2 * i + 2)
+        * (2 * sumabs (rvals64 (firstn (S i) xs)) / INR (length (rvals64 (win w i xs)))) + eta64)%R.
+Proof. exact ts_vmean_binary64_drift. Qed.
+
+(* (B3) no absolute (underflow) term when the computed quotient is in the normal range *)
+Theorem C01_ts_vmean_binary64_error_normal :
+  forall (w : nat) (mp : option nat) (body : bool) (xs : list PrimFloat.float) (i : nat) (o : PrimFloat.float),
+    1 <= w -> (Z.of_nat w < 2 ^ 53)%Z ->
+    nth_error (ts_out (ts_vmean_f (NA := NumF64) (DT := IsNoneF64) w mp) body w xs) i = Some o -> ffin o = true ->
+    (pow2 (-1022) <= Rabs (f2r (ffold zero (emit_ops w xs i)) / INR (length (fvals (win w i xs)))))%R ->
+    (Rabs (f2r o - meanR (rvals64 (win w i xs)))
+     <= gam u64 (S (nops w xs i)) * (habs w xs i / INR (length (rvals64 (win w i xs)))))%R.
+Proof. exact ts_vmean_binary64_error_normal. Qed.
+
+(* (B4) exact accumulators: when every valid element is a multiple of 2^e and every WINDOW's K-th absolute power sum
+   is below 2^(K e + 53) (K = 1..4), no product v*v, v2*v, v2*v2 and no addition / subtraction of `mom_add` / `mom_sub`
+   ever rounds: behind every output, for every emit function (sum, mean, var, std, skew, kurt share the accumulator),
+   both bodies, the float state holds the count and the first K power sums of the window EXACTLY.  Window-local: the
+   history does not enter. *)
+Theorem C01_moment_accumulators_float_exact :
+  forall (K : nat) (e : Z) (emit : @mom PrimFloat.float -> PrimFloat.float) (w : nat) (body : bool)
+         (xs : list PrimFloat.float),
+    1 <= K <= 4 -> (-1074 <= Z.of_nat K * e)%Z -> (Z.of_nat K * e + 53 <= 1024)%Z -> 1 <= w ->
+    forallb (grid_check e) (fvals xs) = true ->
+    (forall i, i < length xs -> (spow K (rvals64 (win w i xs)) < pow2 (Z.of_nat K * e + 53))%R) ->
+    forall i v, nth_error xs i = Some v ->
+      exists s : @mom PrimFloat.float,
+        nth_error (ts_out (mom_feat (NA := NumF64) (DT := IsNoneF64) emit) body w xs) i = Some (emit s) /\
+        m_n s = length (fvals (win w i xs)) /\
+        forall k, 1 <= k <= K -> ffin (msk k s) = true /\ f2r (msk k s) = psum k (rvals64 (win w i xs)).
+Proof. exact moment_accumulators_float_exact. Qed.
+
+(* (B5) the sum of squares in the form "grid 2^e, |x| <= b, w * b^2 < 2^(2e+53)" (all premises executable) *)
+Theorem C01_sum_of_squares_exact_on_grid :
+  forall (e b : Z) (emit : @mom PrimFloat.float -> PrimFloat.float) (w : nat) (body : bool) (xs : list PrimFloat.float),
+    (-1074 <= 2 * e)%Z -> (2 * e + 53 <= 1024)%Z -> 1 <= w ->
+    forallb (grid_check e) (fvals xs) = true -> forallb (abs_le_check b) (fvals xs) = true ->
+    (INR w * IZR b ^ 2 < pow2 (2 * e + 53))%R ->
+    forall i v, nth_error xs i = Some v ->
+      exists s : @mom PrimFloat.float,
+        nth_error (ts_out (mom_feat (NA := NumF64) (DT := IsNoneF64) emit) body w xs) i = Some (emit s) /\
+        m_n s = length (fvals (win w i xs)) /\
+        ffin (m_s1 s) = true /\ f2r (m_s1 s) = psum 1 (rvals64 (win w i xs)) /\
+        ffin (m_s2 s) = true /\ f2r (m_s2 s) = psum 2 (rvals64 (win w i xs)).
+Proof. exact sum_of_squares_exact_on_grid. Qed.
+
+(* (B6) the state of the float run is the state of the option-R run on the same series: the two instances differ only
+   in the final closed-form arithmetic of `emit`.  For k <= K the float field, read as an exact real, IS the exact
+   field; the exact state holds the power sums of the window ((0) above). *)
+Theorem C01_moment_state_exact_on_grid :
+  forall (K : nat) (e : Z) (emit64 : @mom PrimFloat.float -> PrimFloat.float) (emitX : @mom XR -> XR)
+         (w : nat) (body : bool) (xs : list PrimFloat.float),
+    1 <= K <= 4 -> (-1074 <= Z.of_nat K * e)%Z -> (Z.of_nat K * e + 53 <= 1024)%Z -> 1 <= w ->
+    forallb (grid_check e) (fvals xs) = true ->
+    (forall i, i < length xs -> (spow K (rvals64 (win w i xs)) < pow2 (Z.of_nat K * e + 53))%R) ->
+    forall i v, nth_error xs i = Some v ->
+      exists (s64 : @mom PrimFloat.float) (sX : @mom XR),
+        nth_error (ts_out (mom_feat (NA := NumF64) (DT := IsNoneF64) emit64) body w xs) i = Some (emit64 s64) /\
+        nth_error (ts_out (mom_feat (NA := NumXR) (DT := IsNoneXR) emitX) body w (map fx xs)) i = Some (emitX sX) /\
+        m_n s64 = m_n sX /\ (forall k, 1 <= k <= K -> fx (msk k s64) = msk k sX) /\
+        m_n sX = length (rvals64 (win w i xs)) /\
+        (forall k, 1 <= k <= 4 -> msk k sX = Some (psum k (rvals64 (win w i xs)))).
+Proof. exact moment_state_exact_on_grid_props. Qed.
+
+(* (B7) all four power sums (premise on the fourth-power sum of every window): the exact run's state IS the image
+   `mom_fx` of the float run's state *)
+Theorem C01_moment_state_exact_on_grid_all :
+  forall (e : Z) (emit64 : @mom PrimFloat.float -> PrimFloat.float) (emitX : @mom XR -> XR)
+         (w : nat) (body : bool) (xs : list PrimFloat.float),
+    (-1074 <= 4 * e)%Z -> (4 * e + 53 <= 1024)%Z -> 1 <= w ->
+    forallb (grid_check e) (fvals xs) = true ->
+    (forall i, i < length xs -> (psum 4 (rvals64 (win w i xs)) < pow2 (4 * e + 53))%R) ->
+    forall i v, nth_error xs i = Some v ->
+      exists s64 : @mom PrimFloat.float,
+        nth_error (ts_out (mom_feat (NA := NumF64) (DT := IsNoneF64) emit64) body w xs) i = Some (emit64 s64) /\
+        nth_error (ts_out (mom_feat (NA := NumXR) (DT := IsNoneXR) emitX) body w (map fx xs)) i
+        = Some (emitX (mom_fx s64)).
+Proof. exact moment_state_exact_on_grid_all_props. Qed.
+
+(* (B8) the window premise from executable tests: |x| <= b for every valid element and w * b^K < 2^(K e + 53) *)
+Theorem C01_windows_in_range_of_bound :
+  forall (K : nat) (e : Z) (w : nat) (xs : list PrimFloat.float) (b : Z),
+    1 <= w -> forallb (abs_le_check b) (fvals xs) = true ->
+    (INR w * IZR b ^ K < pow2 (Z.of_nat K * e + 53))%R ->
+    forall i, i < length xs -> (spow K (rvals64 (win w i xs)) < pow2 (Z.of_nat K * e + 53))%R.
+Proof. exact windows_in_range_of_bound_props. Qed.
+
+(* (B9) DESIGN 2.3, now a theorem: generated values are k/4 with |k| <= 400 and windows have at most 64 elements, so the
+   premise of (B7) holds with e = -2: all four power sums of the correspondence inputs are exact in binary64 *)
+Theorem C01_generated_inputs_in_range :
+  forall (w : nat) (xs : list PrimFloat.float),
+    1 <= w <= 64 -> forallb (abs_le_check 100) (fvals xs) = true ->
+    forall i, i < length xs -> (psum 4 (rvals64 (win w i xs)) < pow2 (4 * (-2) + 53))%R.
+Proof. exact generated_inputs_in_range. Qed.
+
+(* (B10) on grid data the rolling mean is the CORRECTLY ROUNDED exact mean of the window — half an ulp, whatever the
+   history (compare (B1), whose bound grows with the number of operations performed) *)
+Theorem C01_ts_vmean_correctly_rounded_on_grid :
+  forall (e : Z) (w : nat) (mp : option nat) (body : bool) (xs : list PrimFloat.float) (i : nat) (o : PrimFloat.float),
+    (-1074 <= e)%Z -> (e + 53 <= 1024)%Z -> 1 <= w -> (Z.of_nat w < 2 ^ 53)%Z ->
+    forallb (grid_check e) (fvals xs) = true ->
+    (forall j, j < length xs -> (spow 1 (rvals64 (win w j xs)) < pow2 (e + 53))%R) ->
+    nth_error (ts_out (ts_vmean_f (NA := NumF64) (DT := IsNoneF64) w mp) body w xs) i = Some o -> ffin o = true ->
+    f2r o = rnd64 (meanR (rvals64 (win w i xs))) /\
+    (Rabs (f2r o - meanR (rvals64 (win w i xs))) <= u64 * Rabs (meanR (rvals64 (win w i xs))) + eta64)%R.
+Proof. exact ts_vmean_correctly_rounded_on_grid. Qed.
+
+(* non-vacuity of (B1)-(B3): a long history (1e16 absorbs the small terms), a NaN, the mean of the last window rounds *)
+Example C01_example_mean_rounding_premises :
+  exists o, nth_error (ts_out (ts_vmean_f (NA := NumF64) (DT := IsNoneF64) 2 (Some 1)) true 2 [1e16; nan; 0.1; 0.2]%float) 3
+            = Some o /\ ffin o = true /\ PrimFloat.eqb o 0.15%float = false /\ (Z.of_nat 2 < 2 ^ 53)%Z.
+Proof. eexists. repeat split; vm_compute; reflexivity. Qed.
+(* non-vacuity of (B4)-(B9): a grid series (multiples of 1/4, |x| <= 100, a NaN), window 2 *)
+Example C01_example_grid_premises :
+  forallb (grid_check (-2)) (fvals [1.25; nan; -0.75; 100; 99.75]%float) = true /\
+  forallb (abs_le_check 100) (fvals [1.25; nan; -0.75; 100; 99.75]%float) = true /\
+  (INR 2 * IZR 100 ^ 2 < pow2 (2 * (-2) + 53))%R /\ (-1074 <= 2 * (-2))%Z /\ (2 * (-2) + 53 <= 1024)%Z /\
+  ts_out (ts_vvar_f (NA := NumF64) (DT := IsNoneF64) 2 None) true 2 [1.25; nan; -0.75; 100; 99.75]%float
+  = [nan; nan; nan; 5075.28125; 0.03125]%float.
+Proof.
+  split; [vm_compute; reflexivity|]. split; [vm_compute; reflexivity|]. split.
+  - change (pow2 (2 * -2 + 53)) with (IZR (2 ^ 49)).
+    replace (INR 2 * IZR 100 ^ 2)%R with (IZR (2 * 100 ^ 2)) by (rewrite mult_IZR, pow_IZR, INR_IZR_INZ; reflexivity).
+    apply IZR_lt. reflexivity.
+  - split; [discriminate|]. split; [discriminate|]. vm_compute. reflexivity.
+Qed.
+(* non-vacuity of (B10): a grid series whose window mean 100.75 / 3 is not a dyadic number; the output is finite and
+   (being rounded) not even a multiple of 2^-40 *)
+Example C01_example_grid_mean_premises :
+  forallb (grid_check (-2)) (fvals [1.25; nan; -0.75; 100.25]%float) = true /\
+  (exists o, nth_error (ts_out (ts_vmean_f (NA := NumF64) (DT := IsNoneF64) 4 (Some 1)) false 4 [1.25; nan; -0.75; 100.25]%float) 3
+             = Some o /\ ffin o = true /\ grid_check (-40) o = false).
+Proof. split; [vm_compute; reflexivity|]. eexists. repeat split; vm_compute; reflexivity. Qed.
+(* the grid premise is needed: 0.1 is not a dyadic grid point of 2^-2 and its square rounds *)
+Example C01_example_off_grid :
+  grid_check (-2) 0.1%float = false /\ PrimFloat.eqb (0.1 * 0.1)%float 0.01%float = false.
+Proof. split; vm_compute; reflexivity. Qed.
+
 Print Assumptions C01_state_tracks_window.
 Print Assumptions C01_ts_vsum.
 Print Assumptions C01_ts_vmean.
@@ -592,3 +758,13 @@ Print Assumptions C01_fdiff_weight_negative.
 Print Assumptions C01_fdiff_weight_decreasing.
 Print Assumptions C01_fdiff_coef_unit_test_vector.
 Print Assumptions C01_ts_vfdiff_unit_test_vector.
+Print Assumptions C01_ts_vmean_binary64_error.
+Print Assumptions C01_ts_vmean_binary64_drift.
+Print Assumptions C01_ts_vmean_binary64_error_normal.
+Print Assumptions C01_moment_accumulators_float_exact.
+Print Assumptions C01_sum_of_squares_exact_on_grid.
+Print Assumptions C01_moment_state_exact_on_grid.
+Print Assumptions C01_moment_state_exact_on_grid_all.
+Print Assumptions C01_windows_in_range_of_bound.
+Print Assumptions C01_generated_inputs_in_range.
+Print Assumptions C01_ts_vmean_correctly_rounded_on_grid.
